@@ -38,16 +38,23 @@ def dep_funcs(vc):
     return dict(power3=lambda: DF(power3, B3), exp3=lambda: DF(exp3, B3), lin2=lambda: DF(lin2))
 
 
+def _vrange(spec):
+    """value_range given in lattice units (spec['vr'] = (lo_k, hi_k)) of unit spec['vru'] -> floats or None"""
+    if spec.get("vr") is None:
+        return None
+    return tuple(float(Decimal(int(k)) * Decimal(spec["vru"])) for k in spec["vr"])
+
+
 def slicer_of(vc, spec):
     kind = spec["kind"]
     ref = spec.get("ref", "center")
     if ref == "median":
         ref = np.median
     if kind == "width":
-        return vc.WidthOfIntervalSlicer(float(Decimal(spec["w"])), reference=ref,
+        return vc.WidthOfIntervalSlicer(float(Decimal(spec["w"])), reference=ref, value_range=_vrange(spec),
                                         right_open=spec.get("ropen", True), min_n_points=spec["minpts"])
     if kind == "number":
-        return vc.NumberOfIntervalsSlicer(spec["n"], reference=ref,
+        return vc.NumberOfIntervalsSlicer(spec["n"], reference=ref, value_range=_vrange(spec),
                                           include_max=spec.get("incmax", True), min_n_points=spec["minpts"])
     return vc.PointsPerIntervalSlicer(spec["n"], last_full=spec.get("lastfull", True), min_n_points=spec["minpts"])
 
@@ -97,6 +104,10 @@ def structures(rng):
         dict(name="weibull|expweibull(wlsq) number7 nomax median", units=["0.25", None],
              dims=[dict(fam="weibull", slicer=Nn(7, 20, incmax=False, ref="median")), dict(ew2, cond=0)],
              fitdesc=[None, {"method": "wlsq", "weights": "linear"}]),
+        dict(name="weibull|lognormal number8 value_range inside data", units=["0.1", None],
+             dims=[dict(fam="weibull", slicer=Nn(8, 15, vr=(8, 40), vru="0.1")), dict(ln, cond=0)], fitdesc=None),
+        dict(name="weibull|lognormal width0.5 value_range inside data", units=["0.1", None],
+             dims=[dict(fam="weibull", slicer=W("0.5", 15, vr=(10, 35), vru="0.1")), dict(ln, cond=0)], fitdesc=None),
         dict(name="weibull|normal points untied", units=["0.001", None], untied=True,
              dims=[dict(fam="weibull", slicer=P(int(rng.integers(60, 140)), 40)), dict(nrm, cond=0)], fitdesc=None),
         dict(name="weibull|normal points tied", units=["0.1", None],
@@ -280,12 +291,15 @@ def dim_records(vc, case, rid0):
             upw = int(Decimal(sl["w"]) / Decimal(unit))
             if Decimal(upw) * Decimal(unit) != Decimal(sl["w"]):
                 raise Machinery("width is not a multiple of the lattice unit")
-            rec.update(upw=upw, lo=0, hi=int(k.max()), cdata=[int(v) for v in k],
+            vr = sl.get("vr")
+            rec.update(upw=upw, lo=(int(vr[0]) if vr else 0), hi=(int(vr[1]) if vr else int(k.max())), cdata=[int(v) for v in k],
                        exact=(sl["w"] in ("0.5", "1", "0.25", "2") and unit in ("0.5", "0.25", "1")))
             unitf = float(Decimal(unit))
         elif sl["kind"] == "number":
             nn = sl["n"]
-            rec.update(upw=int(k.max() - k.min()), lo=int(nn * k.min()), hi=int(nn * k.max()),
+            vr = sl.get("vr")
+            klo, khi = (int(vr[0]), int(vr[1])) if vr else (int(k.min()), int(k.max()))
+            rec.update(upw=int(khi - klo), lo=int(nn * klo), hi=int(nn * khi),
                        cdata=[int(nn * v) for v in k], exact=False)
             unitf = float(Decimal(unit)) / nn
         else:
@@ -381,7 +395,7 @@ def key_of(c):
 
 def run(ctx):
     vc = import_virocon()
-    ctx.rule = ("10 model structures (2-D/3-D; chain and fan; width / number / points slicers with option variants; MLE and WLSQ; "
+    ctx.rule = ("12 model structures (2-D/3-D; chain and fan; width / number / points slicers with option variants; MLE and WLSQ; "
                 "fit descriptions None / partial) x data sizes x sorted/shuffled rows with conditioning values rounded to a lattice "
                 "(ties); each case = fit, fit of row-permuted data, fit-other-then-refit; distinct = (structure, n, order, seed); "
                 "one record per conditional dimension plus one per model")
